@@ -489,7 +489,7 @@ func runC03(c *Ctx) {
 			for _, b := range r.Receiver.Blocks {
 				for _, in := range b.Instrs {
 					ret, ok := in.(*ssa.Return)
-					if !ok {
+					if !ok || b.Comment == "recover" {
 						continue
 					}
 					rv := core.ReturnErr(r.Receiver, ret)
